@@ -383,6 +383,34 @@ class NoPanic:
                 a = by_origin[r["origin"]]
                 r["status"] = "audited"
                 r["detail"] = "same site as %s (%s, a helper inlined into several callers): %s" % (a["key"], r["origin"][0].split("::")[-1], a["detail"])
+        # a site that moved between methods of one type (a computation hoisted from a callee into its caller, or pushed down): an audited entry of
+        # the same kind and operand shape in that type which no site of its own function claimed covers it (its required facts are re-checked)
+        def type_key(k):
+            head, _, tail = pool_key(k).partition("/")
+            return head.rsplit("::", 1)[0] + "/" + tail
+        left = {}
+        for lst in (self._audit_pool or {}).values():
+            for k2 in lst:
+                left.setdefault(type_key(k2), []).append(k2)
+        for r in self.records:
+            if r["status"] != "open" or "required facts no longer hold" in r["detail"]:
+                continue
+            cands = left.get(type_key(r["key"]), [])
+            if not cands:
+                continue
+            k2 = cands.pop(0)
+            a = self.audited.get(k2)
+            missing = []
+            for req in a.get("requires", []):
+                ok, why = (self.req_check(req) if self.req_check else (False, "no requirement checker"))
+                if not ok:
+                    missing.append("%s: %s" % (req, why))
+            if missing:
+                r["detail"] += "; audited entry %s exists but its required facts no longer hold: %s" % (k2, "; ".join(missing))
+            else:
+                r["status"] = "audited"
+                r["detail"] = "audited (entry %s; the site moved to another method of the same type): %s (requires %s)" % (k2, a["reason"], a.get("requires", []))
+                self.used_audits.add(k2)
         return self.records
 
     def recursive_pre(self, fn, B):
